@@ -1,5 +1,5 @@
 //verif:pkg pkg/cafs
-//verif:use store
+//verif:use store,cafshelp
 //verif:assume leaf sizes 2..4 bytes injected below cafs.New's [64 B, 5 MiB] guard (the write/read code is parametric in the leaf size; New's guards are checked separately); content up to 3 leaves + 1 byte
 //verif:assume BLAKE2b modelled as an injective uninterpreted function of (tree parameters, input)
 //verif:assume object store = in-memory model with GCS semantics (put-atomic, readers may return short reads and io.EOF with or after the last bytes)
@@ -10,112 +10,10 @@
 package cafs
 
 import (
-	"bytes"
 	"context"
 	"io"
 	"sync"
-
-	lru "github.com/hashicorp/golang-lru"
-	"go.uber.org/zap"
 )
-
-// ---- environment -------------------------------------------------------
-
-type vLeafBuf struct {
-	baseBuffer
-	buf [8]byte
-}
-
-func (b *vLeafBuf) Reset() { b.slice = b.buf[:0] }
-
-// vNewFs builds a defaultFs the way New does, but with a small leaf size and
-// small pool buffers (cafs.New only accepts 64 B .. 5 MiB).
-func vNewFs(store *vStore, leaf uint32, flushes, prefetch int) *defaultFs {
-	f := &defaultFs{
-		store:                       cafsStore{backend: store},
-		leafSize:                    leaf,
-		concurrentFlushes:           flushes,
-		readerConcurrentChunkWrites: 2,
-		deduplicationScheme:         DeduplicationBlake,
-		keysCacheSize:               16,
-		withVerifyHash:              true,
-		withPrefetch:                prefetch,
-		l:                           zap.NewNop(),
-	}
-	const cacheBuffers = 2
-	f.leafPool = &leafFreelist{
-		list:      make([]LeafBuffer, 0, cacheBuffers+3),
-		allocate:  func() LeafBuffer { x := new(vLeafBuf); x.Reset(); return x },
-		size:      func() uint32 { return 8 },
-		watermark: cacheBuffers + 3,
-	}
-	f.lru, _ = lru.NewWithEvict(cacheBuffers, func(_ interface{}, v interface{}) {
-		f.leafPool.Release(v.(LeafBuffer))
-	})
-	f.keysCache, _ = lru.New(f.keysCacheSize)
-	f.pather = func(lks Key) string { return lks.StringWithPrefix(f.prefix) }
-	return f
-}
-
-// vChunkSrc hands its bytes over in chunks of the given sizes (then the rest).
-type vChunkSrc struct {
-	b     []byte
-	sizes []int
-	i     int
-	pos   int
-}
-
-func (s *vChunkSrc) Read(p []byte) (int, error) {
-	if s.pos >= len(s.b) {
-		return 0, io.EOF
-	}
-	n := len(s.b) - s.pos
-	if s.i < len(s.sizes) && s.sizes[s.i] < n {
-		n = s.sizes[s.i]
-	}
-	s.i++
-	if n > len(p) {
-		n = len(p)
-	}
-	copy(p, s.b[s.pos:s.pos+n])
-	s.pos += n
-	return n, nil
-}
-
-func vSource(content []byte) io.Reader {
-	switch vChoose("srcKind", 2) {
-	case 0:
-		// a source with WriteTo: everything arrives in one Write (bytes.Reader, as *os.File may)
-		return bytes.NewReader(content)
-	default:
-		k := 2
-		sizes := make([]int, k)
-		for i := range sizes {
-			sizes[i] = vChoose("chunk", len(content)+1) + 1
-		}
-		return &vChunkSrc{b: content, sizes: sizes}
-	}
-}
-
-func vLeafParams() (L uint32, n int) {
-	L = uint32(vChoose("leaf", 3) + 2) // 2..4
-	max := 3*int(L) + 1
-	if !vThorough() {
-		max = 2*int(L) + 1
-	}
-	n = vChoose("n", max+1)
-	return
-}
-
-// expected layout: leaf i (0-based) covers content[i*L : min((i+1)*L, n)]
-func vNumLeaves(n int, L uint32) int { return (n + int(L) - 1) / int(L) }
-
-// vPutObject stores content through the real Put and returns its key.
-func vPutObject(fs *defaultFs, content []byte, src io.Reader) PutRes {
-	res, err := fs.Put(context.Background(), src)
-	vAssert(err == nil, "put-no-error")
-	return res
-}
 
 // ---- H-Put: written size, store layout -----------------------------------
 
@@ -161,46 +59,6 @@ func VerifC01PutLayout() {
 	}
 	if n == 0 {
 		vCover("empty")
-	}
-}
-
-// vStoreObject builds the stored form of content directly (the layout that
-// VerifC01PutLayout establishes for Put), using the real key functions.
-func vStoreObject(store *vStore, content []byte, L uint32) Key {
-	n := len(content)
-	m := vNumLeaves(n, L)
-	keys := make([]Key, m)
-	for i := 0; i < m; i++ {
-		hi := (i + 1) * int(L)
-		if hi > n {
-			hi = n
-		}
-		chunk := content[i*int(L) : hi]
-		var k Key
-		if len(chunk) == int(L) {
-			k, _ = KeyFromBytes(chunk, L, uint64(i+1), false)
-		} else {
-			k, _ = KeyFromBytes(chunk, L, uint64(i), true)
-		}
-		keys[i] = k
-		store.putRaw(k.String(), append([]byte{}, chunk...))
-	}
-	root, _ := RootHash(keys, L)
-	var rb []byte
-	for _, k := range keys {
-		rb = append(rb, k[:]...)
-	}
-	rb = append(rb, root[:]...)
-	store.putRaw(root.String(), rb)
-	return root
-}
-
-func vShortReads(store *vStore) {
-	switch vChoose("readMode", 3) {
-	case 1:
-		store.readChunk = func(rem int) int { return 1 }
-	case 2:
-		store.eofWithData = true
 	}
 }
 
